@@ -167,8 +167,26 @@ fn loop_shape_covenants() -> Vec<(String, Bytes)> {
     v
 }
 
+/// One covenant per representative instruction (every opcode, boundary operands): the fee threshold sees every entry of the weight table.
+fn single_opcode_covenants() -> Vec<(String, Bytes)> {
+    use OpCode::*;
+    let mut ops: Vec<OpCode> = vec![
+        Noop, Add, Sub, Mul, Div, Rem, And, Or, Xor, Not, Eql, Lt, Gt, Shl, Shr, Store, Load, VRef, VAppend, VEmpty, VLength, VSlice, VSet, VPush, VCons, BRef, BAppend, BEmpty,
+        BLength, BSlice, BSet, BPush, BCons, ItoB, BtoI, TypeQ, Dup, Jmp(1), Bez(1), Bnz(1), StoreImm(1), LoadImm(1), PushB(vec![1, 2, 3]), PushI(7u8.into()), PushIC(7u8.into()),
+    ];
+    for k in [0u8, 1, 127, 254, 255] {
+        ops.push(Exp(k));
+    }
+    for n in [0u16, 1, 255, 256, 65534, 65535] {
+        ops.push(Hash(n));
+        ops.push(SigEOk(n));
+    }
+    ops.into_iter().map(|o| (o.to_string(), Covenant::from_ops(&[o]).to_bytes())).collect()
+}
+
 fn loop_shape_cases(run: &Run, fx: &Fx) {
-    let shapes = loop_shape_covenants();
+    let mut shapes = loop_shape_covenants();
+    shapes.extend(single_opcode_covenants());
     run.states_add(shapes.len() as u64);
     shapes.par_iter().for_each(|(name, cov)| {
         for delta in [-1i64, 0, 1] {
@@ -242,6 +260,39 @@ pub fn run(run: &Run) {
         let scn = sc(name, NetID::Custom02, fm, cfg.clone(), depth);
         let st = run_scenario(run, &scn, 1_500_000);
         println!("  scenario {}: depth {} states {} transitions {}", name, st.depth_completed, st.states, st.transitions);
+    }
+    // very large fees: the reward coin is exact even when (fee pool >> 16) + tips approaches or exceeds the maximum coin value
+    {
+        use crate::stf::*;
+        let (_w, rootn) = root(NetID::Custom02, 0, false);
+        let eng = Engine::new(run);
+        if let StepOut::Next(open) = eng.step(&rootn, &Action::Open) {
+            let big = |tag: u8, fee: u128| tx_t(TxKind::Faucet, vec![], vec![out_t(1, Denom::Mel)], fee, vec![0xfe, tag]);
+            for fees in [vec![1u128 << 119], vec![1 << 119, 1 << 119], vec![1 << 120], vec![1 << 120, 1 << 119], vec![(1 << 120) - 5, 7]] {
+                let mut n = open.clone();
+                let mut ok = true;
+                for (i, f) in fees.iter().enumerate() {
+                    match eng.step(&n, &Action::Batch { label: format!("faucet(fee={})", f), txs: vec![big(i as u8, *f)], expect_ok: true }) {
+                        StepOut::Next(x) => n = x,
+                        _ => {
+                            ok = false;
+                            break;
+                        }
+                    }
+                }
+                if ok {
+                    for act in [Some(action_dest(4)), None] {
+                        if let StepOut::Next(sealed) = eng.step(&n, &Action::Seal(act)) {
+                            run.outcome("huge-fees:sealed");
+                            // and the following block, sealed with an action, pays what is left exactly
+                            if let StepOut::Next(o2) = eng.step(&sealed, &Action::Open) {
+                                let _ = eng.step(&o2, &Action::Seal(Some(action_dest(5))));
+                            }
+                        }
+                    }
+                }
+            }
+        }
     }
     run.sample(json!({"fee_multiplier": "65536", "shape": "in=1 out=2 cov=sigeok50(w=150) data=100 delta=-1", "expected": "rejected: fee = minimum - 1"}));
     run.sample(json!({"path": ["genesis[Custom02]", "open", "overpay(coin)", "seal(delta=7,dest=..)"], "oracle": "reward coin = (fee pool of seal(None) >> 16) + tips; fee pool decreases by exactly the first part; next block's tips start at 0"}));
